@@ -185,11 +185,12 @@ where
         #[cfg(feature = "verif")]
         let start_time = crate::verif::VirtualInstant::now();
 
-        // Main Loop
-        loop {
+        // Main Loop. Every exit goes through `break` so that the generator can be handed back to the
+        // planner afterwards: a later `solve` continues the seeded stream.
+        let result = loop {
             // 1. Check for timeout
             if start_time.elapsed() > timeout {
-                return Err(PlanningError::Timeout);
+                break Err(PlanningError::Timeout);
             }
 
             // 2. Sample a state (q_rand)
@@ -244,11 +245,13 @@ where
                 // 7. Check if the new node satisfies the goal
                 if goal.is_satisfied(&q_new) {
                     println!("Solution found after {} nodes.", self.tree.len());
-                    return Ok(self.reconstruct_path(self.tree.len() - 1));
+                    break Ok(self.reconstruct_path(self.tree.len() - 1));
                 }
             }
-        }
+        };
         // TODO: Limit iteration counts and add Err(PlanningError::NoSolutionFound)
+        self.rng = Some(rng);
+        result
     }
 }
 
